@@ -8,13 +8,18 @@ def main(tier, seed, replay):
         model_targets=["D2/Announce.vo", "D2/Choose.vo", "Corr/C19Corr.vo"],
         prop_module="Props.C19",
         driver="c19",
-        corr_name="corr:d2-announce-choose (model run_trace / possible / run_service vs real HandleUriUpdate snapshots after "
-                  "every event, hosts returned under injected draws (membership over all iteration orders), service in force)",
+        corr_name="corr:d2-announce-choose (model run_trace / run_bursts / possible / run_service vs real HandleUriUpdate snapshots "
+                  "after every event, the snapshots the real waitForUriUpdates loop publishes after every burst of events, hosts "
+                  "returned under injected draws (membership over all iteration orders), service in force)",
         trusted=[
-            "modelled, not verified: ZooKeeper and treecache.go (the model starts at the TreeCacheEvent channel); encoding/json "
-            "and net/url decoding of announcement payloads (an event's payload is the OUTCOME of decoding: decoded weights or "
-            "error; which outcome a byte string has is observed on the real decoder by the harness for 8 malformed and 6 "
-            "weight-less payload shapes)",
+            "modelled, not verified: ZooKeeper and treecache.go (the model starts at the TreeCacheEvent channel: the harness "
+            "feeds the REAL loops waitForUriUpdates / waitForServiceUpdates through a channel of its own, with bursts of events "
+            "already waiting when the loop runs again and with a back-to-back producer); encoding/json and net/url decoding of "
+            "announcement payloads (an event's payload is the OUTCOME of decoding: decoded weights, or error together with the "
+            "weights the failed decoding left in the struct - PMalformed partial; which outcome a byte string has is observed "
+            "on the real decoder by the harness on every run, for 16 malformed payload shapes - 10 rejected by encoding/json "
+            "before the struct is touched, 6 rejected after the weights were stored - and 7 weight-less ones, and compared "
+            "with what the text was built to be)",
             "math/rand: the draw of each attempt is a parameter r i with premise 0 <= r i < 1; replayed through an injected rand.Source",
             "Go map iteration order: two universally quantified permutations per attempt; the implementation's result must lie in "
             "the model's set of results over all orders (ChooseProofs.possible_complete)",
@@ -23,7 +28,9 @@ def main(tier, seed, replay):
             "a lower-priority scheme, with probability ~2^-53 per draw); the harness uses dyadic weights and draws so that Go's "
             "arithmetic is exact, frequencies over real draws are sampled as supporting statistics only",
             "heap model: a *serviceUris with its map is one cell; *Uri objects are values (never written after decoding)",
-            "hooks: /repo/v2/d2/export_verif.go and /repo/d2/export_verif.go (//go:build verif, add-only)",
+            "hooks: /repo/v2/d2/export_verif.go and /repo/d2/export_verif.go (//go:build verif, add-only); the unexported loops "
+            "are reached without a hook through go:linkname declarations in harness/cmd/c19/loop_v2.go / loop_root.go (the "
+            "driver stops linking when a loop is renamed or its signature changes)",
         ],
         assume=["the starting snapshot is a map (no duplicate znode keys)",
                 "every iteration order is a permutation of the announced (host, weight) entries",
